@@ -172,6 +172,9 @@ func TestC12(t *testing.T) {
 			}
 			g := &wf.G{T: rt, Rare: true}
 			w := g.Workflow()
+			if rapid.Bool().Draw(rt, "shufflekeys") {
+				g.ShuffleKeys(w.Root)
+			}
 			lay := g.Layout()
 			src := ye.Emit(w.Root, lay)
 			if ds, err := lint(src); err != nil || len(ds) > 0 {
